@@ -22,6 +22,7 @@ from hypothesis import strategies as st
 
 from vlib import pyexprs, values
 from vlib.cham import run
+from vlib.fuzz import FuzzStage
 from vlib.harness import Check, Mismatch, Part
 
 LIT = (
@@ -237,6 +238,7 @@ CHECK = Check(
           "at least one ${} and one of < > & among the literals; distinct by "
           "sha1 of the case"),
     parts=[Text()],
+    stages=[FuzzStage("checks.c20", "text", 20000)],
     assumptions=[
         "expression values are computed by Python eval on the generator's "
         "own source text",
